@@ -241,6 +241,9 @@ impl Property for RefProp {
         if case["kind"].as_str() == Some("coverage") {
             return check_coverage(case, stats);
         }
+        if case["kind"].as_str() == Some("host-scope") {
+            return check_host_scope(case, stats);
+        }
         if case["kind"].as_str() == Some("session") {
             let inputs: Vec<&str> = case["inputs"].as_array().map(|a| a.iter().filter_map(|i| i.as_str()).collect()).unwrap_or_default();
             stats.evals(2);
@@ -549,6 +552,93 @@ fn partial_constant_cases() -> Vec<Json> {
     cases
 }
 
+/// C06 through the host API: a call built with `Function::create_call` and run with `exec_unscoped` into
+/// the interpreter the function lives in binds the parameters, the function's own name and the body's
+/// locals for the call only: afterwards every name of the host means what it meant before, and no name
+/// of the body has appeared.
+fn check_host_scope(case: &Json, stats: &mut Stats) -> Verdict {
+    let setup = case["setup"].as_str().unwrap_or("");
+    let args: Vec<i64> = case["args"].as_array().map(|a| a.iter().filter_map(|x| x.as_i64()).collect()).unwrap_or_default();
+    let names: Vec<&str> = case["names"].as_array().map(|a| a.iter().filter_map(|x| x.as_str()).collect()).unwrap_or_default();
+    run::default_budget();
+    let mut host = crate::exec::safe_interpreter();
+    match run::parse_guarded(&host, setup) {
+        Ok(Ok(code)) => {
+            if !matches!(run::exec_unscoped_guarded(&code, &mut host), Outcome::Value(_)) {
+                return fail("C06:host-scope:setup", format!("`{setup}` did not run"));
+            }
+        }
+        _ => return fail("C06:host-scope:setup", format!("`{setup}` was not accepted")),
+    }
+    let Some(simplesl::variable::Variable::Function(f)) = host.get_variable("f").cloned() else {
+        return fail("C06:host-scope:setup", format!("`{setup}` declares no function f"));
+    };
+    let view = |host: &simplesl::Interpreter| -> Vec<String> {
+        names.iter().map(|n| match host.get_variable(n) { Some(v) => format!("{n} = {}", crate::canon::canon(v).show()), None => format!("{n} unbound") }).collect()
+    };
+    let before = view(&host);
+    let call = format!("f({})", args.iter().map(|a| a.to_string()).collect::<Vec<_>>().join(", "));
+    // what the call gives when written in the language (a fresh parse of setup and call)
+    let (in_language, _) = observe(&format!("{setup} {call}"));
+    stats.evals(2);
+    stats.nontrivial(&format!("{setup} {call}"));
+    stats.label("host-scope: create_call run unscoped into the function's own interpreter");
+    let code = match run::guarded(|| f.clone().create_call(args.iter().map(|a| simplesl::variable::Variable::Int(*a)).collect())) {
+        Ok(Ok(code)) => code,
+        Ok(Err(e)) => return fail("C06:host-scope:create_call", format!("`{setup}`: {call} refused by create_call: {}", run::error_kind(&e))),
+        Err(c) => return fail(format!("C06:host-scope:{}", c.sig()), format!("`{setup}`: create_call for {call} panicked")),
+    };
+    let got = match run::exec_unscoped_guarded(&code, &mut host) {
+        Outcome::Value(v) => format!("value {}", crate::canon::canon(&v).show()),
+        o => o.short(),
+    };
+    if got != in_language {
+        return fail("C06:host-scope:result", format!("`{setup}`: {call} through create_call + exec_unscoped gives {got}, written in the language {in_language}"));
+    }
+    let after = view(&host);
+    if before != after {
+        return fail(
+            "C06:host-scope:names",
+            format!("`{setup}`: after {call} through create_call + exec_unscoped the host's names are {after:?}, before the call {before:?}"),
+        );
+    }
+    stats.sample(3, || json!({"setup": setup, "call": call, "host_names": before}));
+    Verdict::Pass
+}
+
+fn host_scope_cases() -> Vec<Json> {
+    let names = json!(["x", "n", "y", "k", "v", "w", "a", "b", "g", "acc", "it", "m", "i", "f2"]);
+    let bodies: [(&str, &str, usize); 14] = [
+        ("(n: int) -> int", "x := n * 3; y := x + 1; return y;", 1),
+        ("(x: int, y: int) -> int", "n := x - y; return n;", 2),
+        ("(k: int) -> int", "if k <= 0 { return 0; } return k + f(k - 1);", 1),
+        ("(n: int) -> int", "g := (x: int) -> int { y := x * 2; return y; }; return g(n) + g(1);", 1),
+        ("(n: int) -> int", "(a, b) := (n, n + 1); (x, y) := (b, a); return x * 10 + y;", 1),
+        ("(n: int) -> int", "acc := mut 0; for v in [n, 2, 3]~ { w := v * 2; acc += w; } return *acc;", 1),
+        ("(n: int) -> int", "r := match n { v: int => v + 1, }; x := r; return x;", 1),
+        ("(n: int) -> int", "if v: int = n { x := v + 5; return x; } return 0;", 1),
+        ("(n: int) -> int", "k := mut 0; it := () -> (bool, int) { k += 1; return (*k < 3, *k); }; y := it $+; return y + n;", 1),
+        ("(n: int) -> int", "m := mod { x := 5; y := x + 1; }; return m.y + n;", 1),
+        ("(n: int) -> int", "x := [n, 1]~ @ (v: int) -> int { w := v + 1; return w; } $]; return x[0] + x[1];", 1),
+        ("(n: int) -> int", "{ x := n; y := x; }; i := mut 0; while *i < 2 { b := *i; i += 1; } return *i + n;", 1),
+        ("(f2: int) -> int", "f2 := f2 + 1; return f2;", 1),
+        ("(n: int) -> any", "x := n; return () -> int { return x; };", 1),
+    ];
+    let hosts = [
+        "x := 100; n := 200; y := 300; k := mut 400; v := \"v\"; w := [1]; a := (1, 2); b := true; g := 2.5; acc := \"acc\"; it := [7]~; m := 9; i := 1; f2 := 3;",
+        "x := mut 1; y := () -> int { return 5; };",
+        "",
+    ];
+    let mut out = vec![];
+    for host in hosts {
+        for (sig, body, arity) in bodies {
+            let args: Vec<i64> = (0..arity).map(|k| 4 + k as i64).collect();
+            out.push(json!({"kind": "host-scope", "setup": format!("{host} f := {sig} {{ {body} }};"), "args": args, "names": names}));
+        }
+    }
+    out
+}
+
 /// C06: every construct that binds a name locally (match arm, if-set, while-set, for, block, function
 /// parameter, module, closure, destructuring inside a block) between a declaration of the same name
 /// and a later use of it, in function bodies, at the top level and in modules
@@ -799,6 +889,11 @@ pub fn run(session: &Session, prop: &'static RefProp, rule: &str) -> i32 {
     if prop.id == "C04" && !session.stopped() {
         let cases = partial_constant_cases();
         session.set_extra("partial_constant_cases", json!(cases.len()));
+        session.run_enum(prop, cases);
+    }
+    if prop.id == "C06" && !session.stopped() {
+        let cases = host_scope_cases();
+        session.set_extra("host_scope_cases", json!(cases.len()));
         session.run_enum(prop, cases);
     }
     if prop.id == "C06" && !session.stopped() {
